@@ -35,9 +35,24 @@ CHECKS = {
  "C09": (X, "property-based testing: proptest-generated fragmented movies rendered by an independent encoder, ground-truth oracle, single-stream and init+segment forms",
          "Every sample of every generated fragmented movie is compared with the builder's ground truth (offset, bytes, start, duration, composition offset, count) both when fragments follow moov in one stream and when the media segment is opened against the init segment. One open known finding (single trex) is tolerated by signature and re-confirmed from its witness on every run.",
          "trusts the reference encoder; one run per traf; sync flags not asserted", "DESIGN.md 4/C09"),
+ "C10": (F, "fault injection enumerated over every stream-call index x fault kind (error, zero-length transfer) for opening, sample reads and whole muxing histories; short-transfer / EINTR streams compared with a full-transfer baseline",
+         "For every explored file and history the stream calls are counted in a fault-free run and then each single call index is failed in turn: the public call in progress must return Error::IoError (with the injected marker), never Ok, another variant or a panic. Streams limited to 1..64 bytes per call with sporadic Interrupted must give identical boxes, samples and output bytes.",
+         "one fault per run; subjects: 4 canned + ~8 reference-encoded files, 14 (thorough 80) histories", "DESIGN.md 4/C10"),
+ "C11": (F, "crash-point enumeration: every prefix length of files in every layout, compared with the complete file's samples",
+         "Every cut position 0..len of every subject file (and media segment against its intact init) is opened with the prefix's own length; a successful open must return, for every sample id of the complete file, an error, None beyond its own count, or exactly the complete file's sample. Panics and budget exhaustion (hangs) are violations.",
+         "baseline = library's reading of the complete file", "DESIGN.md 4/C11"),
+ "C12": (X, "metamorphic property-based testing: logical movie x layout transformations (exhaustive single transformations over all sites of the rendered box tree, random combinations), equality with the base and with the builder's ground truth of the variant",
+         "Variants that differ only in physical layout (inserted free/unknown boxes incl. 64-bit headers, sibling order, 64-bit size headers, spare bytes) must open to the same tracks, accessor values, metadata and samples; sample offsets must equal the reference encoder's truth for the variant.",
+         "sites restricted to what the statement names; trusts the reference encoder", "DESIGN.md 4/C12"),
+ "C13": (X, "boundary-value property-based testing on a sparse stream: generated histories whose start position, cumulative payload and durations land just below/at/above 2^32; independent parser + read-back oracle",
+         "Muxer and reader share a run-length-encoded sparse stream so real > 4 GiB outputs are produced and read back; the harness' parser checks that each 64-bit form (largesize mdat, co64, version 1) is used whenever the value exceeds 32 bits and that every stored value is exact.",
+         "single samples <= 64 MiB; uniform fill bytes per sample", "DESIGN.md 4/C13"),
  "C14": (X, "property-based testing: full enumeration of the AAC enum product and AVC profile/compat bytes + proptest random configurations, accessor-vs-configuration oracle",
          "Each generated configuration is muxed with a short history, reopened, and every accessor compared with the configuration (independent AVC profile table; exact-arithmetic one-tick duration tolerance). AAC enum product and profile/compat pairs are exhaustive, the rest sampled.",
          "trusts the harness' tables; durations kept below 2^50 movie ticks", "DESIGN.md 4/C14"),
+ "C15": (X, "stateful property-based testing: generated call schedules on one reader vs single calls on fresh readers; repeated mux/parse runs compared",
+         "Each call of a generated schedule (samples, offsets, counts, accessors; valid, missing and out-of-range ids; repeats) must return what a fresh reader returns for that single call; the same history muxed twice (second time on another thread) must give identical bytes and the same bytes opened twice equal structures and JSON.",
+         "results normalised to text; schedules <= 200 calls", "DESIGN.md 4/C15"),
  "C16": (X, "exhaustive enumeration of every finite mapping domain (2^32 codes, 2^16 language codes, 2^16 profile pairs, all u8/u16 raw values) against independent tables",
          "Each mapping is evaluated on its complete domain and compared with tables written in the harness from the specifications; for these domains the check is a decision, not a sample (exhaustive: true). Text form of non-UTF-8 codes and the 2^32 raw values of FixedPointU16/DataType are complete only in the thorough tier.",
          "trusts the harness' tables (four-character codes, ISO-639 packing, AAC tables, H.264 profile_idc)", "DESIGN.md 4/C16"),
